@@ -3,7 +3,7 @@
    proved; the end-to-end invariance of tensions and pressures is evaluated by harness/props/c06.py.  Two refutations are
    known findings: the code's per-component sign rule (D1, Props/C02.v) and the multiplier column (D3, below). *)
 From Coq Require Import Reals List.
-From Forsys Require Import Model.Num Model.ForceSys Proofs.ForceSysProofs.
+From Forsys Require Import Model.Num Model.ForceSys Model.Velocity Proofs.ForceSysProofs Proofs.VelocityProofs.
 
 Theorem C06_oriented_tangent_rotation : forall c s ux uy dx dy : R, (c * c + s * s = 1)%R ->
   oriented_tangent ROps (fst (rot c s (ux, uy))) (snd (rot c s (ux, uy))) (fst (rot c s (dx, dy))) (snd (rot c s (dx, dy)))
@@ -21,6 +21,13 @@ Theorem C06_rotation_preserves_sqnorm : forall c s a b : R, (c * c + s * s = 1)%
 Proof. exact rotation_preserves_sqnorm. Qed.
 Theorem C06_multiplier_column_refuted : exists c s : R, (c * c + s * s = 1)%R /\ rot c s (1%R, 1%R) <> (1%R, 1%R).
 Proof. exact multiplier_column_not_covariant. Qed.
+(* a change of units multiplies every junction velocity by one factor k > 0 (time stamps divided by k, or lengths multiplied by k):
+   the adimensional right-hand side is unchanged and the reported system velocity is multiplied by k *)
+Theorem C06_adimensional_rhs_unit_invariant : forall (k : R) (vs : list (R * R)) (b : list R) (vn : R),
+  (0 < k)%R -> mean_speed ROps vs <> 0%R -> vs <> nil ->
+  velocity_matrix ROps true (map (vscale k) vs) (map (fun x => k * x)%R b) vn
+  = (fst (velocity_matrix ROps true vs b vn), (k * snd (velocity_matrix ROps true vs b vn))%R).
+Proof. exact adimensional_rhs_unit_invariant. Qed.
 Theorem C06_adimensional_ratio_invariant : forall k v m : R, (0 < k)%R -> m <> 0%R -> ((k * v) / (k * m) = v / m)%R.
 Proof. exact adimensional_ratio_invariant. Qed.
 
@@ -30,3 +37,4 @@ Print Assumptions C06_oriented_tangent_reflection.
 Print Assumptions C06_rotation_preserves_sqnorm.
 Print Assumptions C06_multiplier_column_refuted.
 Print Assumptions C06_adimensional_ratio_invariant.
+Print Assumptions C06_adimensional_rhs_unit_invariant.
